@@ -130,6 +130,20 @@ theorem failure_keeps_task (s : State) (g : Good s) (k : Key) (p : Pool)
   refine ⟨(isFailed_markFailed _ _ _ _).mpr (Or.inl ⟨rfl, (hasKey_iff _ _).mp hh⟩), ?_⟩
   simp
 
+/-- **C30 (0) the configuration the manager runs with.**  Whatever the user wrote (unset fields are 0),
+after `applyDefaults` both worker pools have at least one worker — in particular the retry pool, through
+which every task goes that failed once, overflowed, was delayed or was pending at a restart — and, outside
+`Testing` mode, both channels have room: the effective configuration satisfies the hypothesis `WFCfg` of
+the liveness theorems below.  (The harness compares the real `applyDefaults` result with this one.) -/
+theorem defaults_give_workers (raw : Config) (testing : Bool) :
+    1 ≤ (applyDefaults raw testing).nIn ∧ 1 ≤ (applyDefaults raw testing).nRe := by
+  simp only [applyDefaults]
+  constructor <;> split <;> omega
+
+theorem defaults_wf (raw : Config) : WFCfg (applyDefaults raw false) := by
+  have h := defaults_give_workers raw false
+  refine ⟨?_, ?_, h.1, h.2⟩ <;> simp only [applyDefaults] <;> split <;> simp_all <;> omega
+
 /-- **C30 (6) no absorbing non-retry state.**  After every history that leaves the manager running,
 for every stored task there is a continuation without faults (no crash, no close, no restart; every
 execution in it succeeds) after which a worker is executing the task; one more successful execution
@@ -248,6 +262,10 @@ example : ((sys demoCfg).run demo).rows.map (fun r => (r.key, r.status, r.failur
     [(2, .pending, 1), (3, .failed, 2)] := by decide
 example : ((sys demoCfg).run (demo.take 7)).rows.map (·.status) = [.pending, .pending, .failed] := by decide
 example : stored ((sys demoCfg).run demo) 2 ∧ ¬ stored ((sys demoCfg).run demo) 1 := by decide
+
+-- one incoming worker, everything else unset: 1 incoming worker, 2 retry workers, channels of 1000
+example : applyDefaults { capIn := 0, capRe := 0, nIn := 1, nRe := 0, retryInterval := 1 } false =
+    { capIn := 1000, capRe := 1000, nIn := 1, nRe := 2, retryInterval := 1 } := by decide
 
 -- a closed manager in a live process holding a pending row in a channel nobody reads (6c applies)
 example : ((sys demoCfg).run [.addBegin 1 0 [], .addEnq 1, .close]).mode = .closing ∧
